@@ -73,6 +73,9 @@ func reencodings(tx []byte) []encoding {
 		if un := []byte(strings.NewReplacer(`\u0026`, "&", `\u003c`, "<", `\u003e`, ">").Replace(string(tx))); !bytes.Equal(un, tx) {
 			out = append(out, encoding{"html-escapes-written-literally", un})
 		}
+		// the memo rewritten with the signatures kept: resubmitted only where the node's own notion of the signed
+		// content does not cover the memo (then it is the same signed transaction once more)
+		out = append(out, encoding{"memo-rewritten", bytes.Replace(tx, append([]byte(`"memo":`), m["memo"]...), []byte(`"memo":"another memo"`), 1)})
 		out = append(out, encoding{"wrong-type-memo-number", bytes.Replace(tx, append([]byte(`"memo":`), m["memo"]...), []byte(`"memo":5`), 1)})
 		out = append(out, encoding{"wrong-type-memo-object", bytes.Replace(tx, append([]byte(`"memo":`), m["memo"]...), []byte(`"memo":{"a":1}`), 1)})
 		out = append(out, encoding{"wrong-type-extra-signature", bytes.Replace(tx, []byte(`"signatures":[`), []byte(`"signatures":[7,`), 1)})
@@ -388,6 +391,13 @@ func checkC05(tier string) int {
 			u := wm.w.Users[2%len(wm.w.Users)]
 			tx := txb.Tx(txb.Send(u.Addr, wm.w.Users[1].Addr, "OLT", fmt.Sprint(4200+wm.h)), txb.DefaultFee(), fmt.Sprintf("R&D <c05-%d>", wm.h), u)
 			bases = append(bases, hist.TxSpec{Kind: "SEND", Bytes: tx, Note: "transfer with a memo of escaped characters", Signers: []string{u.Addr.String()}})
+		}
+		// a transfer with a memo of nine and a half kilobytes (whatever is done differently for large
+		// transactions must not open a second way in)
+		{
+			u := wm.w.Users[3%len(wm.w.Users)]
+			tx := txb.Tx(txb.Send(u.Addr, wm.w.Users[1].Addr, "OLT", fmt.Sprint(4300+wm.h)), txb.DefaultFee(), fmt.Sprintf("c05-large-%d-", wm.h)+strings.Repeat("m", 9500), u)
+			bases = append(bases, hist.TxSpec{Kind: "SEND", Bytes: tx, Note: "transfer with a memo of 9.5 KB", Signers: []string{u.Addr.String()}})
 		}
 		// a transfer signed the hardware-wallet way (ed25519 signature over a digest, prefixed with its name)
 		{
